@@ -89,9 +89,32 @@ func (p *printer) printToken(t *token.Token, def []byte) {
 	}
 
 	for _, ff := range t.FreeFloating {
-		p.write(ff.Value)
+		p.writeToken(ff)
 	}
-	p.write(t.Value)
+	p.writeToken(t)
+}
+
+// writeToken writes the text of a token. A token that carries a position was
+// produced by the scanner, so its text is reproduced verbatim: the source
+// already contains whatever open tag or white space it needs. Only tokens
+// without a position (built by hand or by the formatter) go through write()
+// and its automatic "<?php " and space insertion.
+func (p *printer) writeToken(t *token.Token) {
+	if t.Position == nil {
+		p.write(t.Value)
+		return
+	}
+
+	if len(t.Value) == 0 {
+		return
+	}
+
+	if bytes.HasPrefix(t.Value, []byte("<?")) {
+		p.state = PrinterStatePHP
+	}
+
+	p.last = t.Value
+	p.output.Write(t.Value)
 }
 
 func (p *printer) ifNode(n ast.Vertex, val []byte) []byte {
